@@ -169,7 +169,8 @@ def _sdd_family(ctx, mode, cfg, nq=6, nt=40, segs=5, length=120, nmax=5):
 def sdd_apply_model(ctx):
     """SddApply: the four apply cases with their shortcuts yield the conjunction, keep the primes a partition and,
     after compress + trimming, the canonical element list - for all pairs of functions"""
-    model_check(ctx, "SddApply", "MC_SddApply_q.cfg", "all 256 pairs of 2-variable functions, vtree (x0 | x1)", workers=2)
+    model_check(ctx, "SddApply", "MC_SddApply_q.cfg", "all 256 pairs of 2-variable functions, vtree (x0 | x1); condition on every (variable, value)", workers=2)
+    model_check(ctx, "SddApply", "MC_SddApply_skiptrim.cfg", "regression: condition that skips trimming allocates a trimmable node", workers=2, expect_violation=True)
     if not ctx.quick:
         model_check(ctx, "SddApply", "MC_SddApply_1_2.cfg", "all 65 536 pairs of 3-variable functions, left {x0} right {x1,x2}", workers=16, timeout=3000, xmx="8g")
         model_check(ctx, "SddApply", "MC_SddApply_2_1.cfg", "all 65 536 pairs of 3-variable functions, left {x0,x2} right {x1}", workers=16, timeout=3000, xmx="8g")
